@@ -376,8 +376,18 @@ func cmdCheck(args []string) int {
 
 	// group failures by obligation name
 	failed := map[string][]*Obligation{}
+	kfSeen := map[string]bool{}
 	for _, o := range rr.obls {
 		if !oblOK(o) {
+			if k, ok := openKF[o.Name]; ok {
+				// a recorded, still open finding: reported as such, never as a violation
+				if !kfSeen[k.ID] {
+					kfSeen[k.ID] = true
+					kfLines = append(kfLines, fmt.Sprintf("KNOWN-FINDING: property=%s %s [%s] %s", cfg.ID, k.ID, o.Name, k.What))
+				}
+				o.Status = "known-finding"
+				continue
+			}
 			failed[o.Name] = append(failed[o.Name], o)
 		}
 	}
@@ -430,6 +440,9 @@ func cmdCheck(args []string) int {
 }
 
 func oblOK(o *Obligation) bool {
+	if o.Status == "known-finding" {
+		return false
+	}
 	if o.Cover {
 		return o.Status == "sat" || o.Status == "not-refuted"
 	}
@@ -455,6 +468,9 @@ func finish(cfg PropCfg, verif, tier string, seed int, t0 time.Time, rr *runResu
 	covers := 0
 	if rr != nil {
 		for _, o := range rr.obls {
+			if o.Status == "known-finding" {
+				continue // recorded open finding: listed under known_findings, not counted as an obligation of the claim
+			}
 			nObl++
 			if oblOK(o) {
 				nDis++
@@ -510,6 +526,12 @@ func finish(cfg PropCfg, verif, tier string, seed int, t0 time.Time, rr *runResu
 		cov["uncontracted_calls"] = sortedKeys(prog.Uncontracted)
 		cov["inlined_functions"] = sortedKeys(prog.Inlined)
 		cov["abstracted"] = sortedKeys(prog.Abstracted)
+		if prog.Inventory != nil {
+			cov["map_iterations"] = prog.Inventory
+		}
+		if prog.peg != nil {
+			cov["peg_shape_theory"] = prog.peg.Summary
+		}
 		for _, a := range sortedKeys(prog.Assumed) {
 			assumptions = append(assumptions, "assumed: "+a)
 		}
